@@ -815,8 +815,9 @@ class CFG:
         if isinstance(other, regular_expression.Regex):
             other = other.to_epsilon_nfa().to_deterministic()
         elif isinstance(other, FiniteAutomaton):
-            if not other.is_deterministic():
-                other = other.to_deterministic()
+            # Also needed for a deterministic automaton which is not a
+            # DeterministicFiniteAutomaton: its transitions give sets of states
+            other = other.to_deterministic()
         else:
             raise NotImplementedError
         if other.is_empty():
